@@ -16,10 +16,13 @@
 //   <flags>:<ghost>:<finalized>:<estimate>:<completable 0|1>:<precommit ghost>:<pv weight>.<pv voters>:<pc weight>.<pc voters>
 //     flags: bit0 ValidVoter, bit1 Duplicated, bit2 Equivocation reported; "err" if the import failed
 //     blocks as hex indices, "-" for nil
+//   followed by one more entry with the vote graph at the end of the history:
+//   G:<block>/<ancestors, parent first>/<descendant vote-nodes, sorted>/<bit positions 2*voter+phase of the cumulative vote>;...
 package grandpa
 
 import (
 	"fmt"
+	"sort"
 	"strings"
 	"testing"
 
@@ -196,6 +199,52 @@ func c20Run(in string) string {
 	if len(out) == 0 {
 		return "-"
 	}
+	// the vote graph at the end of the history: one entry per vote-node, sorted by block index
+	//   G:<block>/<ancestors parent first, "."-joined>/<descendants sorted>/<bits of the cumulative vote sorted>;...
+	type gent struct {
+		b int
+		s string
+	}
+	var ents []gent
+	idxs := func(hs []string, sorted bool) string {
+		var l []int
+		for _, h := range hs {
+			if i, ok := index[h]; ok {
+				l = append(l, i)
+			} else {
+				l = append(l, 0xfff)
+			}
+		}
+		if sorted {
+			sort.Ints(l)
+		}
+		if len(l) == 0 {
+			return "-"
+		}
+		ss := make([]string, len(l))
+		for i, x := range l {
+			ss[i] = vu.X(uint64(x))
+		}
+		return strings.Join(ss, ".")
+	}
+	round.graph.entries.Scan(func(h string, e voteGraphEntry[string, uint32, *voteNode[string], vote[string]]) bool {
+		var bits []string
+		for _, b1 := range iter1s(e.cumulativeVote.bits.bits, 0, 0) {
+			bits = append(bits, vu.X(uint64(b1.position)))
+		}
+		bs := "-"
+		if len(bits) > 0 {
+			bs = strings.Join(bits, ".")
+		}
+		ents = append(ents, gent{index[h], fmt.Sprintf("%s/%s/%s/%s", vu.X(uint64(index[h])), idxs(e.ancestors, false), idxs(e.descendants, true), bs)})
+		return true
+	})
+	sort.Slice(ents, func(i, j int) bool { return ents[i].b < ents[j].b })
+	gs := make([]string, len(ents))
+	for i, e := range ents {
+		gs[i] = e.s
+	}
+	out = append(out, "G:"+strings.Join(gs, ";"))
 	return strings.Join(out, ",")
 }
 
